@@ -204,6 +204,13 @@ fn decide_body_strategy<R: Read>(headers: &Headers, mut body: R) -> io::Result<B
             let mut buf = Vec::with_capacity(cl as usize);
             let mut limited = body.by_ref().take(cl);
             limited.read_to_end(&mut buf)?;
+            // as on the streaming path: a body that ends before the declared length cannot be framed by it
+            if (buf.len() as u64) < cl {
+                return Err(io::Error::new(
+                    io::ErrorKind::UnexpectedEof,
+                    "body shorter than the declared content-length",
+                ));
+            }
             return Ok(BodyStrategy::Fast(buf, cl));
         } else {
             return Ok(BodyStrategy::Streaming(body, cl));
